@@ -492,6 +492,79 @@ func c18ReloadBody(stage string, withHooks bool) {
 			expectState(id, other, "good:signal-while-busy:"+prev.Name+"-to-"+other.Name)
 		}
 	}
+	// the configuration file is being replaced (atomically, by rename) all the time, alternately by the good configuration
+	// and by one whose directory fails the check, while reload signals arrive: whatever a reload reads, the agent must go
+	// on serving a configuration that passed the check as a whole
+	{
+		id := "racing-swap"
+		R.Mark(id)
+		badDir := filepath.Join(root, "bad-swap-no-admin")
+		os.RemoveAll(badDir)      //nolint:errcheck
+		os.MkdirAll(badDir, 0700) //nolint:errcheck
+		plantIn(rng, current, badDir, []ovlUser{{Name: "nobody", Pw: "p", Set: current.Def}})
+		bc := current
+		bc.Base = badDir
+		good, bad := current.yaml(), bc.yaml()
+		stopSwap := make(chan struct{})
+		var sw sync.WaitGroup
+		sw.Add(1)
+		go func() {
+			defer sw.Done()
+			for i := 0; ; i++ {
+				select {
+				case <-stopSwap:
+					return
+				default:
+				}
+				content := good
+				if i%2 == 1 {
+					content = bad
+				}
+				os.WriteFile(cfg+".swap", []byte(content), 0600) //nolint:errcheck
+				os.Rename(cfg+".swap", cfg)                      //nolint:errcheck
+				time.Sleep(150 * time.Microsecond)
+			}
+		}()
+		for k := 0; k < vr.Pick(25, 120); k++ {
+			n0 := 0
+			for _, e := range verifSnapshot() {
+				if e.Kind == "exec.reload" {
+					n0++
+				}
+			}
+			syscall.Kill(os.Getpid(), syscall.SIGHUP) //nolint:errcheck
+			if !c19Wait(10*time.Second, func(ev []verifEvt) bool {
+				n := 0
+				for _, e := range ev {
+					if e.Kind == "exec.reload" {
+						n++
+					}
+				}
+				return n > n0
+			}) {
+				continue
+			}
+			iface.Check() //nolint:errcheck
+			got, detail := c18Which(R, id, iface, confs, &nprobe)
+			R.Count("reloads_during_config_swaps", 1)
+			if got != current.Name {
+				R.Violate("c18:reload:racing-config-swap:serving-"+got, fmt.Sprintf("while the configuration file alternates between the good configuration %s and one whose directory has no administrator, after reload #%d a new record shows: %s (%s); entries in the rejected directory: %v", current.Name, k, got, detail, func() []string {
+					e, _ := os.ReadDir(badDir)
+					var n []string
+					for _, x := range e {
+						n = append(n, x.Name())
+					}
+					return n
+				}()), id, nil)
+				break
+			}
+		}
+		close(stopSwap)
+		sw.Wait()
+		if c18Reload(cfg, current.yaml()) {
+			expectState(id+"/after", current, "good:after-racing-swap")
+		}
+	}
 	// a burst of signals at random points of the request stream
 	nb := vr.Pick(10, 50)
 	for i := 0; i < nb; i++ {
